@@ -93,6 +93,63 @@ theorem genericTail_blocks {β : Type} (d : Codec.Dec β) : ∀ (fuel : Nat) (b 
           | unmodelled w' => simp [hg] at h
           | err w' => simp only [hg] at h ⊢; cases h; simp
 
+/-- the place where the typed reads stop: the input left when `dec` fails for the first time -/
+def stopAt {β : Type} (dec : Codec.Dec β) : Nat → Bytes → Bytes
+  | 0, b => b
+  | fuel + 1, b =>
+    match dec b with
+    | .ok (_, rest) => stopAt dec fuel rest
+    | .error _ => b
+
+/-- `genericTail` and `Codec.blocks`' tail described AT the stop position `s = stopAt …`, without
+    the walk: the typed read fails at `s`; if it says the input ended, both tails are `eof`;
+    otherwise `Codec.generic s` decides — an object: it is the last item (`none`, never a final
+    packet) and nothing is read behind it; end of input: typed tail decode error, generic tail
+    clean end (the one case where they differ); a failure: both a decode error. -/
+theorem tails_at_stop {β : Type} (d : Codec.Dec β) : ∀ (fuel : Nat) (b : Bytes) (ps : PStream β),
+    Codec.blocks d fuel b = .ok ps →
+    (d (stopAt d fuel b) = .error .eof ∧ ps.tail = .eof ∧ genericTail d fuel b = .eof) ∨
+    (∃ w, d (stopAt d fuel b) = .error (.err w) ∧
+      ((∃ y pre, Codec.generic (stopAt d fuel b) = .ok y ∧ ps.items = pre ++ [none] ∧ ps.tail = .eof) ∨
+       (Codec.generic (stopAt d fuel b) = .error .eof ∧ ps.tail = .err .decodeError ∧ genericTail d fuel b = .eof) ∨
+       (∃ w', Codec.generic (stopAt d fuel b) = .error (.err w') ∧ ps.tail = .err .decodeError ∧
+          genericTail d fuel b = .err .decodeError))) := by
+  intro fuel
+  induction fuel with
+  | zero => intro b ps h; simp [Codec.blocks] at h
+  | succ n ih =>
+    intro b ps h
+    simp only [Codec.blocks] at h
+    simp only [stopAt, genericTail]
+    cases hd : d b with
+    | ok xr =>
+      obtain ⟨x, rest⟩ := xr
+      simp only [hd] at h ⊢
+      cases hb : Codec.blocks d n rest with
+      | error w => simp [hb] at h
+      | ok ps' =>
+        simp only [hb] at h
+        cases h
+        rcases ih rest ps' hb with h1 | ⟨w, hw, h2 | h2 | h2⟩
+        · exact .inl h1
+        · obtain ⟨y, pre, hy, hi, ht⟩ := h2
+          exact .inr ⟨w, hw, .inl ⟨y, some x :: pre, hy, by simp [hi], ht⟩⟩
+        · exact .inr ⟨w, hw, .inr (.inl h2)⟩
+        · exact .inr ⟨w, hw, .inr (.inr h2)⟩
+    | error e =>
+      cases e with
+      | eof => simp only [hd] at h ⊢; cases h; simp
+      | unmodelled w => simp [hd] at h
+      | err w =>
+        simp only [hd] at h ⊢
+        cases hg : Codec.generic b with
+        | ok y => simp only [hg] at h ⊢; cases h; exact .inr ⟨w, rfl, .inl ⟨y, [], rfl, rfl, rfl⟩⟩
+        | error e' =>
+          cases e' with
+          | eof => simp only [hg] at h ⊢; cases h; simp
+          | unmodelled w' => simp [hg] at h
+          | err w' => simp only [hg] at h ⊢; cases h; simp
+
 /-! ## `lastFinal` -/
 
 theorem lastFinal_nil {β : Type} (fin : β → Bool) : Front.lastFinal fin [] = false := rfl
